@@ -19,6 +19,7 @@ type tblWorld struct {
 	refs map[int]lua.LValue
 	rt   *RefTable
 	fns  map[string]*lua.LFunction
+	subs map[int]ctorSpec // nested constructors defined by `sub` ops (c09_ctor.go)
 }
 
 const tblPrelude = `
@@ -27,6 +28,8 @@ function lget(t,k) return t[k] end
 function llen(t) return #t end
 function lnext(t,k) return next(t,k) end
 function lipairs(t) local n=0 for i,v in ipairs(t) do n=i end return n end
+function lpop(t) local n=#t t[n]=nil return n end
+function lpush(t,v) local n=#t t[n+1]=v return n end
 `
 
 func newTblWorld() *tblWorld {
@@ -34,8 +37,8 @@ func newTblWorld() *tblWorld {
 	if err := L.DoString(tblPrelude); err != nil {
 		panic(err)
 	}
-	w := &tblWorld{L: L, tbls: map[int]*lua.LTable{}, refs: map[int]lua.LValue{}, rt: NewRefTable(), fns: map[string]*lua.LFunction{}}
-	for _, n := range []string{"lset", "lget", "llen", "lnext", "lipairs"} {
+	w := &tblWorld{L: L, tbls: map[int]*lua.LTable{}, refs: map[int]lua.LValue{}, rt: NewRefTable(), fns: map[string]*lua.LFunction{}, subs: map[int]ctorSpec{}}
+	for _, n := range []string{"lset", "lget", "llen", "lnext", "lipairs", "lpop", "lpush"} {
 		w.fns[n] = L.GetGlobal(n).(*lua.LFunction)
 	}
 	return w
@@ -107,11 +110,38 @@ func execTable(ops []Op) []string {
 		name := a[0]
 		id, _ := strconv.Atoi(a[1])
 		tb := w.tbls[id]
+		if tb == nil && name != "new" && name != "ctor" && name != "sub" {
+			continue // (a shrunk case may have lost the op that creates the table)
+		}
 		switch name {
 		case "new":
 			acap, _ := strconv.Atoi(a[2])
 			w.tbls[id] = w.L.CreateTable(acap, 0)
 			emit([]string{"new", a[1], a[2], strconv.Itoa(lua.MaxArrayIndex)}, "")
+		case "sub": // defines a nested constructor, used by a later `ctor`
+			w.subs[id] = parseCtorSpec(a[2:])
+		case "ctor": // a table constructor executed as Lua source on the real VM (c09_ctor.go)
+			out = append(out, w.execCtor(id, parseCtorSpec(a[2:]), w.subs)...)
+		case "lpop", "lpush": // the list idioms t[#t] = nil and t[#t+1] = v: one `#` observation and one store
+			var res []lua.LValue
+			var ok bool
+			v := "nil"
+			if name == "lpop" {
+				res, ok = w.lcall("lpop", 1, tb)
+			} else {
+				v = a[2]
+				res, ok = w.lcall("lpush", 1, tb, w.dec(v))
+			}
+			if !ok {
+				out = append(out, "X "+name+"-raised => "+a[1])
+				break
+			}
+			n := int(res[0].(lua.LNumber))
+			emit([]string{"len", a[1]}, strconv.Itoa(n))
+			if name == "lpush" {
+				n++
+			}
+			emit([]string{"lset", a[1], "i" + strconv.Itoa(n), v}, "ok")
 		case "set":
 			tb.RawSet(w.dec(a[2]), w.dec(a[3]))
 			emit(a, "")
@@ -287,8 +317,15 @@ func genTableCase(r *Rng, maxOps int, mai int) []Op {
 		}
 		add("new", strconv.Itoa(i), strconv.Itoa(acap))
 	}
+	return append(ops, genTableHistory(r, maxOps, mai, ntab, make([]int, ntab+1), len(ops))...)
+}
+
+// genTableHistory: a random history over the tables 1..ntab, which exist already; alen[t] is the largest array
+// index known to be in use in table t (alen[0] is unused); base = number of ops the case has already.
+func genTableHistory(r *Rng, maxOps int, mai int, ntab int, alen []int, base int) []Op {
+	var ops []Op
+	add := func(args ...string) { ops = append(ops, Op{Args: args}) }
 	// shadow knowledge used for state-aware argument choice
-	alen := make([]int, ntab+1)
 	used := make([][]string, ntab+1)
 	strs := []string{"s61", "s62", "s31", "s", "s6b6579", "s00ff", "s312e30"} // a b "1" "" key \0\xff "1.0"
 	genKey := func(t int) string {
@@ -353,7 +390,7 @@ func genTableCase(r *Rng, maxOps int, mai int) []Op {
 			alen[t] = n
 		}
 	}
-	nops := r.Range(3, maxOps)
+	nops := r.Range(3, maxOps) - base
 	for len(ops) < nops {
 		t := r.Range(1, ntab)
 		ts := strconv.Itoa(t)
@@ -399,7 +436,13 @@ func genTableCase(r *Rng, maxOps int, mai int) []Op {
 				add("get", ts, k)
 			}
 		case c < 68:
-			add(Pick(r, []string{"len", "llen", "objlen", "maxn"}), ts)
+			switch o := Pick(r, []string{"len", "llen", "objlen", "maxn", "lpop", "lpush"}); o {
+			case "lpush": // t[#t+1] = v
+				add(o, ts, genVal())
+				alen[t]++
+			default: // lpop: t[#t] = nil
+				add(o, ts)
+			}
 		case c < 74:
 			v := genVal()
 			add("append", ts, v)
@@ -450,10 +493,11 @@ func runC09(run *Run) {
 	if run.Tier == "thorough" {
 		nCases, maxOps = 60000, 120
 	}
-	run.Rule = "random table histories (state-aware keys: array window, 0, negatives, >=MaxArrayIndex, 2^53, fractions, strings incl. \"1\", booleans, tables; Go API + Lua-level ops; traversals with interleaved clear/overwrite) executed on the real LTable and replayed on the Lean Model (exact) and Spec (finite map, border, traversal completeness); distinct = distinct op-kind/key-class skeletons with >= 1 store and >= 1 observation"
+	run.Rule = "random table histories (state-aware keys: array window, 0, negatives, >=MaxArrayIndex, 2^53, fractions, strings incl. \"1\", booleans, tables; Go API + Lua-level ops; traversals with interleaved clear/overwrite) executed on the real LTable and replayed on the Lean Model (exact) and Spec (finite map, border, traversal completeness); + tables built by table constructors executed as Lua source on the real VM (bounded-exhaustive: explicit integer keys x number of positional items x trailing call/vararg, small sizes and the SETLIST batch boundary; random: every key class, nested, invalid keys), read back key by key / # / pairs / ForEach against the stores the manual says the constructor is equivalent to + exhaustive array-part sweeps (every length 1..80: shrink from the end by every k, tail run of nils of every length in one step, holes from every middle position, growth) with the border law checked after every step; distinct = distinct op-kind/key-class skeletons with >= 1 store and >= 1 observation"
 	run.Assume = []string{"Go map semantics (lookup/insert/delete by ==; iteration order unspecified) — maps are modelled as association lists and ForEach's hash part is compared as a set",
 		"number keys are canonicalised by the harness (integral float64 → its integer; -0.0 → 0) before they reach the model",
-		"the array part is not driven to MaxArrayIndex-1 elements (1 GiB) in the default configuration; the boundary is exercised with the exported tunable lowered"}
+		"the array part is not driven to MaxArrayIndex-1 elements (1 GiB) in the default configuration; the boundary is exercised with the exported tunable lowered",
+		"the meaning of a table constructor (manual 2.5.7: positional items numbered from 1, a trailing call/vararg contributes all its values, name = e is [\"name\"] = e) is computed by the harness and replayed on Model and Spec as the equivalent stores; only constructors that store no key twice are generated"}
 	root := NewRng(uint64(run.Seed))
 	var cases []Case
 	corpus := loadCorpus("C09")
@@ -465,7 +509,37 @@ func runC09(run *Run) {
 		cases = append(cases, Case{Idx: i, Ops: genTableCase(r, maxOps, lua.MaxArrayIndex)})
 	}
 	runCases(run, cases, execTable, classifyNone)
-	// second pass: the exported tunable MaxArrayIndex lowered so that the array/hash routing boundary is
+	// second pass (it runs before the lowered-MaxArrayIndex pass so that its small exhaustive cases are the ones
+	// reported first): tables built by constructors executed as Lua source on the real VM (c09_ctor.go):
+	// bounded-exhaustive mixes of explicit integer keys and positional items (small sizes and the SETLIST batch
+	// boundary), then random constructors over every key class continued as random histories
+	nCtor, maxSmall, maxN, maxHole := 300, 7, 80, 24
+	if run.Tier == "thorough" {
+		nCtor, maxSmall, maxN, maxHole = 6000, 12, 140, 64
+	}
+	cases = genCtorSweep(lua.FieldsPerFlush, maxSmall)
+	for i := 0; i < nCtor; i++ {
+		r := root.Fork(uint64(5000000 + i))
+		cases = append(cases, Case{Idx: 5000000 + i, Ops: genCtorRandom(r, maxOps, lua.MaxArrayIndex), Note: "ctor-random"})
+	}
+	runCases(run, interleave(cases, 16), execTable, classifyNone)
+	// ... the same with the exported tunable FieldsPerFlush lowered to 3, which brings the batch boundary into the
+	// exhaustive small sweep
+	savedFpf := lua.FieldsPerFlush
+	lua.FieldsPerFlush = 3
+	cases = genCtorSweep(3, maxSmall+1)
+	for i := 0; i < nCtor/3; i++ {
+		r := root.Fork(uint64(5100000 + i))
+		cases = append(cases, Case{Idx: 5100000 + i, Ops: genCtorRandom(r, maxOps, lua.MaxArrayIndex), Note: "ctor-random-fpf3"})
+	}
+	runCases(run, interleave(cases, 16), execTable, classifyNone)
+	lua.FieldsPerFlush = savedFpf
+	// third pass: exhaustive sweeps over the array part, the border law checked after every step: every list
+	// length n, the last k elements cleared for every k (t[#t]=nil, t[i]=nil, RawSetInt, RawSet), a trailing run of
+	// nils of every length appearing in one step, holes growing from every middle position, and growth (hole
+	// filled upwards / downwards, then growth past the end through every store path)
+	runCases(run, interleave(genArraySweeps(maxN, maxHole), 16), execTable, classifyNone)
+	// last pass: the exported tunable MaxArrayIndex lowered so that the array/hash routing boundary is
 	// reachable without a 1 GiB array (the Model takes MaxArrayIndex as a parameter of every table)
 	saved := lua.MaxArrayIndex
 	for _, mai := range []int{6, 17} {
@@ -475,8 +549,14 @@ func runC09(run *Run) {
 			r := root.Fork(uint64(1000000*mai + i))
 			cases = append(cases, Case{Idx: 1000000*mai + i, Ops: genTableCase(r, maxOps, mai)})
 		}
+		// ... and tables built by constructors (c09_ctor.go): positional items at or above MaxArrayIndex go to the hash part
+		for i := 0; i < nCases/30; i++ {
+			r := root.Fork(uint64(5200000 + 100000*mai + i))
+			cases = append(cases, Case{Idx: 5200000 + 100000*mai + i, Ops: genCtorRandom(r, maxOps, mai), Note: "ctor-random-mai"})
+		}
 		runCases(run, cases, execTable, classifyNone)
 	}
 	lua.MaxArrayIndex = saved
+
 	_ = fmt.Sprint
 }
